@@ -1285,13 +1285,13 @@ base_str<CharT>& base_str<CharT>::operator-=(int c)
         return *this;
     }
 
-    m_data->len -= c;
-    if (m_data->len < 0)
-    {
-        m_data->len = 0;
-    }
-
+    // get a private buffer before touching the length, and do not let the unsigned length wrap
     EnsureDataWritable();
+
+    if (c > 0)
+    {
+        m_data->len = (size_t)c < m_data->len ? m_data->len - (size_t)c : 0;
+    }
 
     m_data->data()[m_data->len] = 0;
 
